@@ -7,6 +7,7 @@ from a PRNG in seed mode (and recorded), from the record in replay mode.
 import hashlib
 import json
 import random
+import os
 import threading
 import time as _time
 
@@ -111,6 +112,88 @@ def _sim_sleep(seconds):
             return REAL_SLEEP(seconds)
         return s.sleep_point(t_us)
     c.advance_to(t_us)
+
+
+REAL_LOCK = threading.Lock
+REAL_RLOCK = threading.RLock
+
+
+class SimLock:
+    """threading.Lock / RLock of the code under test.  An actor that finds it taken does not block in C (the holder is
+    parked at a seam and could never release it): every failed attempt is a yield point, so the scheduler runs the
+    holder on.  Threads the simulator does not own get the real behaviour."""
+
+    def __init__(self, reentrant=False):
+        self._real = REAL_LOCK()
+        self._reentrant = reentrant
+        self._owner = None
+        self._count = 0
+
+    def _me(self):
+        return threading.get_ident()
+
+    def acquire(self, blocking=True, timeout=-1):
+        if self._reentrant and self._owner == self._me():
+            self._count += 1
+            return True
+        s = _current_sched
+        a = s.me() if s is not None else None
+        if a is None:
+            ok = self._real.acquire(blocking, timeout)
+        else:
+            deadline = None if timeout is None or timeout < 0 else s.clock.now_us + int(timeout * 1e6)
+            ok = self._real.acquire(False)
+            while not ok and blocking:
+                if deadline is not None and s.clock.now_us >= deadline:
+                    break
+                s.lock_wait(a)
+                ok = self._real.acquire(False)
+        if ok:
+            self._owner = self._me()
+            self._count = 1
+        return ok
+
+    def release(self):
+        if self._reentrant:
+            if self._owner != self._me():
+                raise RuntimeError("cannot release un-acquired lock")
+            self._count -= 1
+            if self._count:
+                return
+        self._owner = None
+        self._real.release()
+
+    def locked(self):
+        return self._real.locked()
+
+    def __enter__(self):
+        self.acquire()
+        return self
+
+    def __exit__(self, *exc):
+        self.release()
+        return False
+
+
+def install_lock_seam(root):
+    """threading.Lock() / RLock() called from files under `root` (the tree under test) return a SimLock; every other
+    caller (standard library, the harness) gets the real thing."""
+    import sys as _sys
+
+    root = os.path.realpath(root) + os.sep
+
+    def from_sut():
+        f = _sys._getframe(2)
+        return os.path.realpath(f.f_code.co_filename).startswith(root)
+
+    def lock():
+        return SimLock(False) if from_sut() else REAL_LOCK()
+
+    def rlock():
+        return SimLock(True) if from_sut() else REAL_RLOCK()
+
+    threading.Lock = lock
+    threading.RLock = rlock
 
 
 def install_clock_seam():
@@ -420,6 +503,7 @@ class Sched:
                     b.state = "dead"
                     self.urgent.append(b.idx)
             raise SimCrash()
+        self._progress = getattr(self, "_progress", 0) + 1
         self.log.add(self.clock.now_us, a.idx, kind, detail)
         self.sched_sig.update(("%d|%s|%s;" % (a.idx, kind, str(detail).split(" ")[0])).encode())
         dur = self.stalls.get((a.idx, a.steps))
@@ -454,9 +538,40 @@ class Sched:
                     b.state = "dead"
                     self.urgent.append(b.idx)
             raise SimCrash()
+        self._progress = getattr(self, "_progress", 0) + 1
         self.log.add(self.clock.now_us, a.idx, "sleep", str(max(0, t_us - self.clock.now_us)))
         self.sched_sig.update(("%d|sleep;" % a.idx).encode())
         self._park(a, t_us)
+
+    def lock_wait(self, a):
+        """An actor found a lock of the code under test taken: yield, so that the holder can run on.  If nothing but
+        lock waits happens for a long stretch, every live actor is waiting: a deadlock of the code under test."""
+        if a.state == "dead":
+            raise SimCrash()
+        if self.aborted is not None:
+            raise HarnessAbort()
+        live = [b for b in self.actors.values() if b.state == "live"]
+        # (actors that are themselves parked in a lock wait do not count: two waiters must not wake each other in turns)
+        others = [b.ready_at for b in live if b is not a and not getattr(b, "lock_waiting", False)]
+        if not others:
+            others = [b.ready_at for b in live if b is not a]
+        # a deadlock: every live actor has been through several lock waits since anybody last did anything else
+        prog = getattr(self, "_progress", 0)
+        if getattr(a, "lw_prog", None) == prog:
+            a.lw_count = getattr(a, "lw_count", 0) + 1
+        else:
+            a.lw_prog, a.lw_count = prog, 1
+        if not others or all(getattr(b, "lw_prog", None) == prog and getattr(b, "lw_count", 0) >= 3 for b in live):
+            self.aborted = "deadlock: every live actor waits for a lock of the code under test"
+            raise HarnessAbort()
+        # wait until just after the next other actor has run (it may be the holder): no spinning through simulated time
+        self.log.add(self.clock.now_us, a.idx, "lock_wait", "")
+        self.sched_sig.update(("%d|lock_wait;" % a.idx).encode())
+        a.lock_waiting = True
+        try:
+            self._park(a, max(self.clock.now_us, min(others)) + 1)
+        finally:
+            a.lock_waiting = False
 
     def sleep_until(self, t_us, kind="sleep", detail=""):
         """Block the calling actor until simulated time t_us (busy-handler waits)."""
@@ -471,6 +586,7 @@ class Sched:
         if self.total_steps > self.step_cap * 5:
             self.aborted = "step cap exceeded in sleeps"
             return
+        self._progress = getattr(self, "_progress", 0) + 1
         self.log.add(self.clock.now_us, a.idx, kind, detail)
         self._park(a, t_us, in_handler=True)
 
